@@ -6,6 +6,8 @@ SPEC = dict(
     drivers=["qxdriver_c01"],
     harnesses=[
         dict(name="codec", asan=False, driver="qxdriver_c01", reset_prefix="codec-reset", args=["--mode", "c02"]),
+        dict(name="parsers", asan="lib", args=["--mode", "c02"], timeout=3000),
+        dict(name="clientfeed", asan="lib", timeout=1500),
     ],
     rule="fixpoint half: Lean norm_idem for every well-formed schema on EVERY tree, tied by the codec correspondence (own-form, mutated and "
          "foreign documents through the real fromDom/toXml of each modelled class). Runtime half (partial, not a theorem): every parser in "
